@@ -231,8 +231,12 @@ def sender(prog, rep):
     if agg is None:
         raise AnchorLost("delta_chunks: no DeltaChunks aggregate")
     dt = agg["delta_tick"]
-    ok = dt[0] == "bin" and dt[1] == "Sub" and dt[2][0] == "arg" and dt[2][2] == "tick" and dt[3][0] == "arg" and dt[3][2] == "delta_tick"
-    rep.ob(rule, "delta_chunks | wire delta_tick", ok, "the sender transmits tick - base: %s" % show(dt), body.loc())
+    # the inverse of the receiver's `tick.wrapping_sub(wire)`: the same wrapping operation (a checked `-`
+    # would panic for tick pairs the receiver handles)
+    ok = (dt[0] == "call" and dt[1].endswith("wrapping_sub") and len(dt[2]) == 2
+          and dt[2][0][0] == "arg" and dt[2][0][2] == "tick" and dt[2][1][0] == "arg" and dt[2][1][2] == "delta_tick")
+    rep.ob(rule, "delta_chunks | wire delta_tick", ok,
+           "the sender transmits tick.wrapping_sub(base), the inverse of the receiver's reconstruction: %s" % show(dt), body.loc())
     np_ = agg["num_parts"]
     txt = show(np_)
     psz = prog.constv("libtw2_gamenet_snap::MAX_SNAPSHOT_PACKSIZE")
